@@ -20,10 +20,10 @@ import (
 type Item struct{ Word, Replacement string }
 
 type Tables struct {
-	Plural, Singular                                []Item
-	Uninflected, UninflPlurals, UninflSingulars     []string
-	PluralRules, SingularRules                      int // number of suffix rules (reported only)
-	PluralUninflected, SingularUninflected          []string
+	Plural, Singular                            []Item
+	Uninflected, UninflPlurals, UninflSingulars []string
+	PluralRules, SingularRules                  int // number of suffix rules (reported only)
+	PluralUninflected, SingularUninflected      []string
 }
 
 func repoDir() string {
